@@ -3,6 +3,12 @@ Engine behaviour is not decidable statically; its structural preconditions are."
 from ._structure import run_structure
 
 META = ("other",
+        "C07.R1 grammar refinement - the token language each statement renderer can write (NFA built from the linked template "
+        "IR: guards free, but correlated boolean flags, shared first-flags, loop-index guards, constant enum arguments, "
+        "variants excluded by a calling match and fold decision tables tracked) is included in the dialect grammar skeleton "
+        "specs/<dialect>.ebnf; a counterexample is a shortest token string with the emission that leaves the grammar; C07.R6 "
+        "hook discipline - inner renderers of overridable backend hooks (specs/hooks.json) are called only from implementations "
+        "of the hook;  "
         "Structural necessary conditions of the SQLite query renderers (shared default renderers + SQLite overrides), over the "
         "linked template IR: C07.R2 parentheses balanced on every consistent path, no two emissions fuse into one token, every "
         "separated list writes its separator iff an element is written; C07.R3 field consumption - every field of every query "
@@ -17,4 +23,4 @@ def check(run):
     run_structure(run, "C07", "query", ["sqlite"], run.tier_configs(["default", "all"], ["sqlite"]))
     run.assumptions.append("NOT decided: acceptance by a real SQLite engine beyond these structural conditions (name resolution, typing), "
                            "returned rows, table contents, affected-row counts")
-    run.assumptions.append("clause order / full grammar skeleton: see the grammar refinement rule C07.R1 when present in this evidence")
+    
